@@ -53,3 +53,23 @@ func selText(ss ast.SelectionSet) string {
 	formatter.NewFormatter(&sb).FormatQueryDocument(&ast.QueryDocument{Operations: ast.OperationList{{Operation: ast.Query, SelectionSet: ss}}})
 	return sb.String()
 }
+
+// withDefaults is CoerceVariableValues as far as defaults go: a variable the request leaves out takes
+// the default its operation declares (an explicit null stays null)
+func withDefaults(op *ast.OperationDefinition, vals map[string]interface{}) map[string]interface{} {
+	out := map[string]interface{}{}
+	for k, v := range vals {
+		out[k] = v
+	}
+	if op == nil {
+		return out
+	}
+	for _, vd := range op.VariableDefinitions {
+		if _, given := out[vd.Variable]; !given && vd.DefaultValue != nil {
+			if v, err := vd.DefaultValue.Value(nil); err == nil {
+				out[vd.Variable] = v
+			}
+		}
+	}
+	return out
+}
